@@ -62,7 +62,7 @@ def main():
         results[mid] = {'breaks': meta.get('breaks'), 'checks': row,
                         'caught_by': sorted(p for p, v in row.items() if v['exit'] == 1)}
         json.dump(results, open(res_path, 'w'), indent=1, sort_keys=True)
-    missed = [m for m in ids if not results.get(m, {}).get('caught_by')]
+    missed = [m for m in ids if not results.get(m, {}).get('caught_by') and not results.get(m, {}).get('neutralised_by')]
     print('missed:', missed)
     return 1 if missed else 0
 
